@@ -146,6 +146,14 @@ impl<'tcx> Ex<'tcx> {
                         let _ = write!(out, ",\"i\":\"{}\"", bits);
                     }
                 }
+                if t.is_any_ptr() {
+                    if let Some(rustc_middle::mir::interpret::Scalar::Ptr(ptr, _)) = c.try_eval_scalar(self.tcx, env) {
+                        let aid = ptr.provenance.alloc_id();
+                        if let Some(rustc_middle::mir::interpret::GlobalAlloc::Static(sd)) = self.tcx.try_get_global_alloc(aid) {
+                            let _ = write!(out, ",\"static\":{}", esc(&self.path(sd)));
+                        }
+                    }
+                }
                 let v = with_no_trimmed_paths!(format!("{}", c));
                 let v = if v.len() > 400 { format!("{}…", &v.chars().take(400).collect::<String>()) } else { v };
                 let _ = write!(out, ",\"v\":{}", esc(&v));
